@@ -302,7 +302,7 @@ def sub_of(term, variant):
     return None
 
 
-def arms_of(body, re_local):
+def arms_of(body, re_local, sym=None):
     """For every value v of `discriminant(*re)`: the blocks reachable from the function entry when every
     switch on that discriminant (the `match` itself, a later `if let Regex::X(..) = re`, an or-pattern
     arm shared by several variants) takes the edge for v. Returns ({v: first block of the arm},
@@ -321,7 +321,9 @@ def arms_of(body, re_local):
             continue
         for st in bb["st"]:
             if "lhs" in st and st["lhs"]["l"] == d["l"] and st["rv"]["k"] == "discr" and \
-                    st["rv"]["p"]["l"] == re_local and all(e == "*" for e in st["rv"]["p"]["p"]):
+                    all(e == "*" for e in st["rv"]["p"]["p"]) and \
+                    (st["rv"]["p"]["l"] == re_local or
+                     (sym is not None and sym.local(st["rv"]["p"]["l"]) == ("param", "re"))):
                 discr_switch[bi] = t
                 if first is None:
                     first = bi
@@ -429,6 +431,21 @@ def is_state_term(t):
     return t in (CURRENT, CONT) or t[0] == "new"
 
 
+def canonical_rec_args(a):
+    """(nfa, bindings, re, current, cont) of a recursive call, whether it is `add_re(nfa, bindings, ..)`
+    or a worker `translate(cx, ..)` whose leading context argument(s) bundle the two."""
+    ctxargs = a[:-3]
+    mentions = set()
+    for t in ctxargs:
+        for nm in ("nfa", "bindings", "re", "current", "cont"):
+            if contains(t, lambda y, nm=nm: y == ("param", nm)):
+                mentions.add(nm)
+    clean = not (mentions & {"re", "current", "cont"})
+    nfa = ("param", "nfa") if clean and "nfa" in mentions else ("bad-context", tuple(sorted(mentions)))
+    bnd = ("param", "bindings") if clean and "bindings" in mentions else ("bad-context", tuple(sorted(mentions)))
+    return (nfa, bnd, a[-3], a[-2], a[-1])
+
+
 # --------------------------------------------------------------------------- the rules
 def check_rthompson(ctx, prog):
     lex = prog.crate(LEX)
@@ -441,7 +458,10 @@ def check_rthompson(ctx, prog):
            key="R-THOMPSON:arity", where=body["span"])
     variants = [v["name"] for v in adt["variants"]]
     sym = Sym(body, ROLES_ADD_RE, crate=lex)
-    entries, private = arms_of(body, 3)
+    entries, private = arms_of(body, 3, sym)
+    # the function that contains the dispatch: add_re itself, or a private worker it delegates to
+    # (inlined here once; its recursive calls remain calls)
+    rec_names = {"regex_to_nfa::add_re"} | set(body.get("inlined") or ())
     if not ctx.ob("R-THOMPSON", "add_re dispatches on the variant of `re`", entries is not None,
                   key="R-THOMPSON:dispatch", where=body["span"]):
         return
@@ -458,7 +478,7 @@ def check_rthompson(ctx, prog):
         calls = arm_calls(sym, private[idx])
         where = sym.blocks[entries[idx]].get("span")
         builder = [(bi, c, a) for bi, c, a, t in calls if c.startswith("nfa::NFA::") and not c.endswith("new_state")]
-        rec = [(bi, c, a) for bi, c, a, t in calls if c == "regex_to_nfa::add_re"]
+        rec = [(bi, c, canonical_rec_args(a)) for bi, c, a, t in calls if c in rec_names and len(a) >= 4]
         # every builder call and recursive call works on the same automaton
         for bi, c, a in builder + rec:
             ctx.ob("R-THOMPSON", "%s: %s is applied to the automaton passed in" % (vname, c.rsplit("::", 1)[-1]),
@@ -888,7 +908,7 @@ def check_rclassdispatch(ctx, prog):
         return
     variants = [v["name"] for v in adt["variants"]]
     sym = Sym(body, ROLES_R2RM, crate=lex)
-    entries, private = arms_of(body, 2)
+    entries, private = arms_of(body, 2, sym)
     if not ctx.ob("R-CLASS", "regex_to_range_map dispatches on the variant of `re`", entries is not None,
                   key="R-CLASS:dispatch", where=body["span"]):
         return
@@ -990,10 +1010,19 @@ def check_rclassdispatch(ctx, prog):
             kinds = set()
             for bi, c, a in muts:
                 lo, hi = a[1], a[2]
-                if item_field(lo, "Char") == 0 and item_field(hi, "Char") == 0:
-                    kinds.add("Char")
-                elif item_field(lo, "Range") == 0 and item_field(hi, "Range") == 1:
-                    kinds.add("Range")
+                # the bounds may be computed first (`let (s, e) = match item {..}`) and inserted once:
+                # every alternative of the lower bound is the character / the range's start, every
+                # alternative of the upper bound the character / the range's end
+                los = list(lo[1]) if lo[0] == "phi" else [lo]
+                his = list(hi[1]) if hi[0] == "phi" else [hi]
+                ok_lo = all(item_field(x, "Char") == 0 or item_field(x, "Range") == 0 for x in los)
+                ok_hi = all(item_field(x, "Char") == 0 or item_field(x, "Range") == 1 for x in his)
+                if ok_lo and ok_hi:
+                    for x in los + his:
+                        if item_field(x, "Char") == 0:
+                            kinds.add("Char")
+                    if any(item_field(x, "Range") == 0 for x in los) and any(item_field(x, "Range") == 1 for x in his):
+                        kinds.add("Range")
                 else:
                     ctx.ob("R-CLASS", "CharSet: an item is inserted as [c, c] or [start, end]", False,
                            key=key + ":item", where=where, detail=[show(lo), show(hi)])
